@@ -25,6 +25,9 @@ pub struct McScenario {
     /// benign transport perturbation (short reads/writes, EINTR, exit lag)
     pub benign: bool,
     pub faults: Vec<Fault>,
+    /// original text of a shipped design: patronus reads this; `sys` was read from the same text
+    /// by the independent reader of refsem
+    pub original_btor2: Option<String>,
 }
 
 pub fn engine_to_json(e: &Engine) -> Value {
@@ -130,7 +133,7 @@ pub fn fault_from_json(v: &Value) -> Result<Fault, String> {
 impl McScenario {
     pub fn to_json(&self) -> Value {
         json!({
-            "workload": {"kind": "system", "system": sys_to_json(&self.sys)},
+            "workload": {"kind": "system", "system": sys_to_json(&self.sys), "original_btor2": self.original_btor2},
             "config": {
                 "profile": PROFILE_NAMES[self.cfg.profile],
                 "simplify": self.cfg.simplify,
@@ -170,6 +173,7 @@ impl McScenario {
             canonical_policy: v["canonical_policy"].as_bool().unwrap_or(false),
             benign: v["benign_transport"].as_bool().unwrap_or(true),
             faults,
+            original_btor2: v["workload"]["original_btor2"].as_str().map(|s| s.to_string()),
         })
     }
 
@@ -196,7 +200,7 @@ impl McScenario {
                 faults: self.faults.clone(),
             },
         );
-        let btor2 = self.sys.to_btor2();
+        let btor2 = self.original_btor2.clone().unwrap_or_else(|| self.sys.to_btor2());
         let run = run_mc(&world, &btor2, &self.cfg);
         let w = world.borrow();
         if std::env::var("PATSIM_WIRE").is_ok() {
@@ -239,6 +243,12 @@ impl McScenario {
     /// shrink candidates: environment first, then the system
     pub fn shrink(&self) -> Vec<McScenario> {
         let mut out = vec![];
+        if self.original_btor2.is_some() {
+            // continue on the re-emitted text so that the system itself can be shrunk
+            let mut s = self.clone();
+            s.original_btor2 = None;
+            out.push(s);
+        }
         if self.benign {
             let mut s = self.clone();
             s.benign = false;
@@ -473,4 +483,115 @@ pub fn gen_bounded_system(
             return sys;
         }
     }
+}
+
+/// Designs shipped under /repo/inputs that the reference domain can model, read by the
+/// independent btor2 reader: (path, original text, abstract system). Cached per thread and
+/// parameter set; sorted by path, so the choice by index is deterministic.
+pub fn shipped_corpus(max_bytes: usize, max_index_width: u32, allow_division: bool) -> std::rc::Rc<Vec<(String, String, Sys)>> {
+    type Key = (usize, u32, bool);
+    thread_local! {
+        static CACHE: std::cell::RefCell<Vec<(Key, std::rc::Rc<Vec<(String, String, Sys)>>)>> = const { std::cell::RefCell::new(vec![]) };
+    }
+    let key = (max_bytes, max_index_width, allow_division);
+    CACHE.with(|c| {
+        if let Some((_, v)) = c.borrow().iter().find(|(k, _)| *k == key) {
+            return v.clone();
+        }
+        let mut v = vec![];
+        let mut dirs = vec![std::path::PathBuf::from("/repo/inputs")];
+        let mut files = vec![];
+        while let Some(d) = dirs.pop() {
+            if let Ok(rd) = std::fs::read_dir(&d) {
+                for e in rd.flatten() {
+                    let p = e.path();
+                    if p.is_dir() {
+                        dirs.push(p);
+                    } else if p.extension().and_then(|x| x.to_str()).map(|x| x.starts_with("btor")).unwrap_or(false) {
+                        files.push(p);
+                    }
+                }
+            }
+        }
+        files.sort();
+        for p in files {
+            let Ok(bytes) = std::fs::read(&p) else { continue };
+            if bytes.len() > max_bytes {
+                continue;
+            }
+            let text = String::from_utf8_lossy(&bytes).to_string();
+            if let Ok(sys) = crate::refsem::btor2in::read_btor2(&text) {
+                let small_arrays = sys
+                    .nodes
+                    .iter()
+                    .map(|n| n.ty)
+                    .all(|t| match t {
+                        Ty::Arr(i, _) => i <= max_index_width,
+                        _ => true,
+                    });
+                if small_arrays && (allow_division || !sys.uses_division()) && !sys.states.is_empty() {
+                    v.push((p.display().to_string(), text, sys));
+                }
+            }
+        }
+        let rc = std::rc::Rc::new(v);
+        c.borrow_mut().push((key, rc.clone()));
+        rc
+    })
+}
+
+/// rough size of the bit-blasted transition relation of one step (gates), used to keep
+/// model-checking workloads on shipped designs cheap for the reference solver
+pub fn mc_cost(sys: &Sys) -> u64 {
+    let mut c = 0u64;
+    for n in &sys.nodes {
+        let w = match n.ty {
+            Ty::Bv(w) => w as u64,
+            Ty::Arr(i, d) => (1u64 << i.min(20)) * d as u64,
+        };
+        c += match n.op {
+            NOp::Bin(crate::val::BinOp::Mul) => 6 * w * w,
+            NOp::Bin(
+                crate::val::BinOp::Udiv
+                | crate::val::BinOp::Urem
+                | crate::val::BinOp::Sdiv
+                | crate::val::BinOp::Srem
+                | crate::val::BinOp::Smod,
+            ) => 12 * w * w,
+            NOp::Bin(crate::val::BinOp::Shl | crate::val::BinOp::Lshr | crate::val::BinOp::Ashr) => 8 * w,
+            NOp::Read | NOp::Write => {
+                let a = sys.nodes[n.args[0]].ty;
+                match a {
+                    Ty::Arr(i, d) => 3 * (1u64 << i.min(20)) * d as u64,
+                    _ => w,
+                }
+            }
+            _ => 2 * w,
+        };
+    }
+    c
+}
+
+/// shipped designs that are cheap enough for model checking against the reference solver
+pub fn shipped_for_mc(max_bytes: usize) -> Vec<(String, String, Sys)> {
+    shipped_corpus(max_bytes, 4, true)
+        .iter()
+        .filter(|(_, _, sys)| {
+            let wide_arith = sys.nodes.iter().any(|n| {
+                matches!(
+                    n.op,
+                    NOp::Bin(
+                        crate::val::BinOp::Mul
+                            | crate::val::BinOp::Udiv
+                            | crate::val::BinOp::Urem
+                            | crate::val::BinOp::Sdiv
+                            | crate::val::BinOp::Srem
+                            | crate::val::BinOp::Smod
+                    )
+                ) && matches!(n.ty, Ty::Bv(w) if w > 8)
+            });
+            mc_cost(sys) <= 450 && !wide_arith && !sys.bads.is_empty()
+        })
+        .cloned()
+        .collect()
 }
